@@ -1103,6 +1103,83 @@ def check_frame(self, path, tag):
 
 VG.Config.check_frame = check_frame
 
+# -- comprehension over d.items() / d.keys() / d.values() of a dict of symbolic size ---------------------------------------
+ORDER = z3.Function('dict_order', ItemsS, z3.SeqSort(_IntS))  # the keys in iteration order
+
+_orig_symbolic_comprehension = VG.Config.symbolic_comprehension
+
+
+def order_facts(ex, t):
+    """the iteration order of a dict enumerates its keys exactly once (valid for every dict)"""
+    a = Dyn.items(t)
+    ks = ORDER(a)
+    done = ex.__dict__.setdefault('order_done', set())
+    if a.get_id() in done:
+        return ks
+    done.add(a.get_id())
+    ex.keep.append(a)
+    i, j, k = z3.Int(ex.fresh_name('oi')), z3.Int(ex.fresh_name('oj')), z3.Int(ex.fresh_name('ok'))
+    n = z3.Length(ks)
+    ex.add_def(n == CARD(a))
+    ex.add_def(z3.ForAll([i], z3.Implies(z3.And(i >= 0, i < n), z3.Not(Dyn.is_absent(z3.Select(a, ks[i]))))))
+    ex.add_def(z3.ForAll([i, j], z3.Implies(z3.And(i >= 0, i < j, j < n), ks[i] != ks[j])))
+    ex.add_def(z3.ForAll([k], z3.Implies(z3.Not(Dyn.is_absent(z3.Select(a, k))), z3.Exists([i], z3.And(i >= 0, i < n, ks[i] == k)))))
+    return ks
+
+
+def _is_dict_view_call(n):
+    return isinstance(n, ast.Call) and isinstance(n.func, ast.Attribute) and n.func.attr in ('items', 'keys', 'values') and not n.args and not n.keywords
+
+
+def symbolic_comprehension(self, path, elt, gens, node):
+    ex = path
+    if len(gens) == 1 and not gens[0].is_async and not gens[0].ifs and _is_dict_view_call(gens[0].iter):
+        it = ex.eval(gens[0].iter)
+        if isinstance(it, JItems):
+            return ('sym', j_comprehension(ex, elt, gens[0], it))
+    return _orig_symbolic_comprehension(self, path, elt, gens, node)
+
+
+def j_comprehension(ex, elt, g, it):
+    """[elt for target in d.items()] for a dict of symbolic size: the element expression is evaluated once, for an
+    arbitrary position i of the iteration order (obligations inside it are proved for every element); the result is the
+    sequence R with len(R) == len(d) and R[i] == elt(i) for every i"""
+    from .values import Frame
+
+    if ex.quant:
+        raise Unsupported('nested symbolic comprehension')
+    t = _recv_term(ex, it.recv)
+    size_facts(ex, t)
+    ks = order_facts(ex, t)
+    i = z3.Int(ex.fresh_name('ci'))
+    rng = z3.And(i >= 0, i < z3.Length(ks))
+    key = mk_str(ks[i])
+    val = mk_dyn(cell(t, ks[i]))
+    frame = ex.alloc(Frame())
+    saved_scope = ex.scope
+    ex.scope = [frame] + list(ex.scope)
+    n0 = len(ex.pc)
+    ex.pc.append(rng)
+    ex.pc.append(z3.Not(Dyn.is_absent(cell(t, ks[i]))))
+    ex.quant += 1
+    try:
+        ex.assign(g.target, key if it.what == 'keys' else val if it.what == 'values' else (key, val))
+        ev = ex.eval(elt)
+    finally:
+        ex.quant -= 1
+        ex.scope = saved_scope
+    added = ex.pc[n0 + 2:]
+    del ex.pc[n0:]
+    out_kind = M.guess_kind(ex, ev)
+    mterm = M.value_to_elem(ex, ev, out_kind)
+    r = ex.fresh_sym(('seq', out_kind), 'comp')
+    ex.add_def(z3.Length(r.t) == z3.Length(ks))
+    ex.add_def(z3.ForAll([i], z3.Implies(z3.And(rng, *added), r.t[i] == mterm)))
+    return r
+
+
+VG.Config.symbolic_comprehension = symbolic_comprehension
+
 # -- solve: concretisation ------------------------------------------------------------
 
 _orig_eval_term = S.eval_term
@@ -1194,6 +1271,44 @@ def eval_term(model, t, kind):
 
 
 S.eval_term = eval_term
+
+_orig_discharge = S.discharge
+
+
+def _has_quantifier(fs):
+    seen = set()
+    stack = list(fs)
+    while stack:
+        t = stack.pop()
+        if t.get_id() in seen:
+            continue
+        seen.add(t.get_id())
+        if z3.is_quantifier(t):
+            return True
+        stack.extend(t.children())
+    return False
+
+
+def discharge(ob, timeout_ms=20000, seed=0, both=False):
+    """cover obligations (is the precondition satisfiable?) whose hypotheses contain quantifiers: z3's default
+    configuration gives up on them; model-based quantifier instantiation alone finds the model at once"""
+    if ob.expect_sat and _has_quantifier(ob.pc):
+        import time as _t
+
+        t0 = _t.time()
+        s = z3.Solver()
+        s.set("timeout", min(int(timeout_ms), 10000))
+        s.set('smt.auto_config', False)
+        s.set('smt.mbqi', True)
+        s.set('smt.ematching', False)
+        for p in ob.pc:
+            s.add(p)
+        if s.check() == z3.sat:
+            return {'status': 'proved', 'backend': 'z3', 'time': _t.time() - t0, 'detail': 'cover sat (mbqi)'}
+    return _orig_discharge(ob, timeout_ms, seed, both)
+
+
+S.discharge = discharge
 
 _orig_small_model = S.small_model
 
